@@ -123,6 +123,8 @@ TMaps ==
     /\ More /\ Ev.k = "x-maps" /\ pend = <<>>
     /\ Cardinality(Range(Ev.own)) <= 1
     /\ Range(Ev.own) \cap Range(Ev.others) = {}
+    \* nor any of the tables inside the map (a copied struct that shares its tables is shared state)
+    /\ Range(Ev.parts) \cap Range(Ev.otherparts) = {}
     /\ l' = l + 1 /\ UNCHANGED <<vars, pend>>
 
 \* C04: memory allocated while the server dealt with one hostile message stays
